@@ -387,6 +387,26 @@ def check_deep_copy(ctx, db):
               'a deep copy leaves the copied references pointing at the source library\'s cells (no store of this->cell_array[...] into reference->cell)')
 
 
+    # the copy's cell array is read at an arbitrary index (the source position of the referenced cell): every slot must have been
+    # filled before - no path leads from the re-pointing store back to the store that fills a slot of the array
+    g = f.cfg
+    fills = [x for x in deep.child('then').walk() if is_assign(x) and any(c.k == 'CallExpr' and (c.callee or '').split('::')[-1] in ('allocate', 'allocate_clear') for c in x.child('rhs').walk())
+             and 'Cell *' in ((x.child('lhs').t or '') + (x.child('lhs').ct or '')) and 'Cell **' not in (x.child('lhs').t or '')]
+    remaps = [x for x in st if 'this->cell_array[' in norm(x.child('rhs').text())]
+    if not fills or not remaps:
+        raise AnalysisBroken('Library::copy_from: slot-filling store (%d) / re-pointing store (%d) not found' % (len(fills), len(remaps)))
+    bad = None
+    for x in remaps:
+        for y in fills:
+            wx, wy = g.where_node(x), g.where_node(y)
+            if wx is None or wy is None:
+                raise AnalysisBroken('Library::copy_from: statement not located in the CFG')
+            if g.path_avoiding(wx, lambda b, i, nid, wy=wy: (b, i) == wy, lambda b, i, nid: False):
+                bad = (x, y)
+    ctx.check(bad is None, 'R-ORDER', 'gdstk::Library::copy_from/remap-after-all-copies', f.loc(), 'references are re-pointed only after every cell of the copy exists (no path from the re-pointing store back to a slot-filling store)',
+              'the re-pointing at %s reads this->cell_array[index] while later slots are still being filled at %s: a cell stored before the cell it references gets an uninitialised pointer' % ((bad[0].loc(), bad[1].loc()) if bad else ('', '')))
+
+
 def run(ctx):
     db = ctx.db
     n = 0
